@@ -1,22 +1,23 @@
 #!/bin/bash
 # usage: tools/seedtest.sh <seeded-dir>... : apply each seeded change to /repo, confirm its demo, run the property's quick check, undo.
 # prints one line per change:  <dir> demo_patched=<rc> demo_clean=<rc> check=<CAUGHT|MISSED> (<first VIOLATION line>)
-cd /verif
+V=${VERIF_DIR:-/verif}; R=${AHP_REPO:-/repo}      # a lane may run on its own copy of /verif and its own worktree of /repo
+cd $V
 for d0 in "$@"; do d=$(realpath "$d0")
   id=$(python3 -c "import json,sys; print(json.load(open('$d/meta.json'))['property'])")
-  if ! git -C /repo apply --check "$d/patch.diff" 2>/dev/null; then echo "$d patch-does-not-apply"; continue; fi
-  git -C /repo apply "$d/patch.diff"
-  cp -f /verif/evidence/$id.json /tmp/seedtest_evidence_$id.json 2>/dev/null   # the evidence of a run on a changed tree is not kept
-  PYTHONPATH=/repo timeout 300 /venv/bin/python "$d/demo.py" < /dev/null > /tmp/seed_demo.out 2>&1; rc1=$?
+  if ! git -C $R apply --check "$d/patch.diff" 2>/dev/null; then echo "$d patch-does-not-apply"; continue; fi
+  git -C $R apply "$d/patch.diff"
+  cp -f $V/evidence/$id.json $V/build/seedtest_evidence_$id.json 2>/dev/null   # the evidence of a run on a changed tree is not kept
+  PYTHONPATH=$R timeout 300 /venv/bin/python "$d/demo.py" < /dev/null > $V/build/seed_demo.out 2>&1; rc1=$?
   out=$(AHP_SKIP_COQCHK=1 timeout 1500 ./vcheck $id --tier ${TIER:-quick} 2>&1 | grep -E "^(VIOLATION|OK|KNOWN)" | head -3 | tr '\n' ' ')
-  git -C /repo checkout -- .
-  [ -f /tmp/seedtest_evidence_$id.json ] && mv -f /tmp/seedtest_evidence_$id.json /verif/evidence/$id.json
-  PYTHONPATH=/repo timeout 300 /venv/bin/python "$d/demo.py" < /dev/null > /dev/null 2>&1; rc0=$?
+  git -C $R checkout -- .
+  [ -f $V/build/seedtest_evidence_$id.json ] && mv -f $V/build/seedtest_evidence_$id.json $V/evidence/$id.json
+  PYTHONPATH=$R timeout 300 /venv/bin/python "$d/demo.py" < /dev/null > /dev/null 2>&1; rc0=$?
   if echo "$out" | grep -q VIOLATION; then res=CAUGHT; else res=MISSED; fi
-  kinds=$(python3 - "$id" <<'PY'
+  kinds=$(python3 - "$id" "$V" <<'PY'
 import glob, json, sys
 ks = []
-for f in sorted(glob.glob('/verif/replays/%s-*.json' % sys.argv[1])):
+for f in sorted(glob.glob('%s/replays/%%s-*.json' % sys.argv[2] % sys.argv[1])):
     try:
         ks.append(json.load(open(f)).get('kind', '?'))
     except Exception:
@@ -24,6 +25,6 @@ for f in sorted(glob.glob('/verif/replays/%s-*.json' % sys.argv[1])):
 print(','.join(sorted(set(ks))))
 PY
 )
-  echo "$d demo_patched=$rc1 demo_clean=$rc0 check=$res caught_by=[$kinds]" | sed 's|/verif/||'
-  rm -f /verif/replays/$id-*.json
+  echo "$d demo_patched=$rc1 demo_clean=$rc0 check=$res caught_by=[$kinds]" | sed "s|$V/||"
+  rm -f $V/replays/$id-*.json
 done
